@@ -3,6 +3,7 @@ import GB.C15.ProofsWake
 import GB.C15.ProofsExtra
 import GB.C15.ProofsOnce
 import GB.C15.Agg
+import GB.C15.ProofsTimed
 import GB.Generated.Facts
 /-
   C15 — description updates are delivered exactly when the target's contract changes.
@@ -730,3 +731,121 @@ theorem C15_facts_aggregate :
        "Add:members:patternWatcher,serviceWatcher", "Add:Build(name,watcher)",
        "Remove:watcher.Close,resolver.Close,poolController.Close"] := by
   decide
+
+/-! ## round 5 — (2) the timer-driven loop, (4) fairness as a predicate on runs and eventual delivery -/
+
+/-- `afterInterval`: nil channel when polling manually (the `timer` step needs `manual = false`), otherwise a FRESH
+    `time.After(PollInterval)` evaluated when the select is entered (`tstep`: `pollEnd` sets `deadline := now + interval`). -/
+theorem C15_facts_after_interval :
+    GB.Generated.resolverAfterInterval = ["if:PollManually:return-nil", "return:time.After(PollInterval)"] := by
+  decide
+
+/-- **The timed loop is the wake-up protocol plus a clock**: every reachable state of `tstep` (clock ticks, contract
+    changes, failing and successful polls, timer, `ResolveNow` callers, `Close`, in ANY interleaving) projects to a
+    reachable state of `step`. Hence: no callback after `Close` returned; once `Close` has returned no poll starts or
+    ends whatever the clock says (a `Close` during a slow poll or during the sleep is final); and no `ResolveNow`
+    is lost (`C15_no_lost_wakeup`) — timer ticks and manual polls do not disturb each other. -/
+theorem C15_timer_loop_safety (manual : Bool) (iv c : Nat) (t : T)
+    (h : GB.LTS.Reachable tstep (T.init manual iv c) t) :
+    GB.LTS.Reachable step (W.init manual) t.w ∧ t.w.cbAfterClose = false ∧
+    (t.w.closer = .returned → (t.w.ppc = .gotDone ∨ t.w.ppc = .exited) ∧
+      ∀ a t', tstep t a = some t' → a ≠ .l .pollStart ∧ a ≠ .pollFail ∧ a ≠ .l .timer ∧ ∀ cb, a ≠ .l (.pollEnd cb)) ∧
+    (∀ i, (t.w.callers i).pc = .finished → (t.w.callers i).served = true ∨ Coming t.w ∨ t.w.closer ≠ .idle) := by
+  have hr := treach_proj manual iv c t h
+  have hi := inv_reachable manual t.w hr
+  refine ⟨hr, hi.f, fun hret => ⟨hi.e2 (Or.inr hret), fun a t' hs => ?_⟩, fun i hf => C15_no_lost_wakeup manual t.w hr i hf⟩
+  have key : ∀ l, erase a = some l → l = .closeDone ∨ ∃ i, l = .load i ∨ l = .fire i ∨ l = .closeCh i := by
+    intro l he
+    rcases tstep_proj t t' a hs with ⟨he', _⟩ | ⟨l', he', hw⟩
+    · rw [he] at he'; cases he'
+    · rw [he] at he'; cases he'
+      exact after_close_only_exit t.w t'.w l hi hret hw
+  refine ⟨fun e => ?_, fun e => ?_, fun e => ?_, fun cb e => ?_⟩ <;> subst e
+  · rcases key _ rfl with h | ⟨i, h | h | h⟩ <;> cases h
+  · rcases key _ rfl with h | ⟨i, h | h | h⟩ <;> cases h
+  · rcases key _ rfl with h | ⟨i, h | h | h⟩ <;> cases h
+  · rcases key _ rfl with h | ⟨i, h | h | h⟩ <;> cases h
+
+/-- **The interval lies BETWEEN polls; polls never overlap.** Whenever the select's timer case is taken, the poller
+    is in the select (the previous poll, however slow, has ended), interval polling is on, and at least
+    `PollInterval` has passed since that poll ENDED. -/
+theorem C15_timer_spacing (manual : Bool) (iv c : Nat) (t t' : T)
+    (h : GB.LTS.Reachable tstep (T.init manual iv c) t) (hs : tstep t (.l .timer) = some t') :
+    t.w.ppc = .atSelect ∧ t.w.manual = false ∧ t.lastEnd + iv ≤ t.now ∧ t'.w.ppc = .top := by
+  obtain ⟨⟨hd, _⟩, hiv⟩ := clock_reachable manual iv c t h
+  simp only [tstep] at hs
+  split at hs
+  · rename_i hle
+    simp only [Option.map_eq_some_iff] at hs
+    obtain ⟨w', hw, rfl⟩ := hs
+    simp only [step] at hw; split at hw <;> simp at hw
+    rename_i hp
+    subst hw
+    exact ⟨hp.1, hp.2, by rw [← hiv]; omega, rfl⟩
+  · simp at hs
+
+/-- **`Close` during the sleep does not wait for the interval**: with the poller asleep in its select and a `Close`
+    call pending, the rendezvous on `done` is enabled at once, whatever the clock and the deadline are; after it
+    neither the timer nor a poll start is possible. (`Close` during a poll: `takeDone` needs `atSelect`, so it is
+    served right after that poll — `C15_timer_loop_safety` covers what follows.) -/
+theorem C15_close_during_sleep (t : T) (hp : t.w.ppc = .atSelect) (hc : t.w.closer = .sending) :
+    ∃ t', tstep t (.l .takeDone) = some t' ∧ t'.w.ppc = .gotDone ∧ t'.w.closer = .sent ∧
+      tstep t' (.l .timer) = none ∧ tstep t' (.l .pollStart) = none := by
+  refine ⟨{ t with w := { t.w with ppc := .gotDone, closer := .sent } }, by simp [tstep, step, hp, hc], rfl, rfl, ?_, ?_⟩
+  · simp only [tstep]; split <;> simp [step]
+  · simp [tstep, step]
+
+/-- **Liveness from an explicit fairness predicate (timer-driven loop).** On every infinite run of the timed system
+    from the initial state with interval polling on, in which `Close` is never called, the poller goroutine is
+    treated weakly fairly (`FairPoller`: again and again it takes a step or is not runnable) and time diverges
+    (`TimeDiverges`), polls start again and again — whatever the `ResolveNow` callers, contract changes and failing
+    polls in between. -/
+theorem C15_polls_forever_on_fair_runs (iv c0 : Nat) (st : Nat → T) (lb : Nat → TL) (hrun : IsRun st lb)
+    (h0 : st 0 = T.init false iv c0) (hfair : FairPoller st lb) (htime : TimeDiverges lb) (hnc : NoClose lb) :
+    ∀ k, ∃ i, k ≤ i ∧ lb i = .l .pollStart := by
+  have hj0 : J (st 0) := by rw [h0]; exact ⟨inv_init false, rfl, rfl⟩
+  intro k
+  exact eventually_pollStart st lb hrun hfair htime hnc _ k (J_run st lb hrun hnc hj0 k) (Nat.le_refl _)
+
+/-- **Every change that persists is eventually delivered, on every fair run.** Same runs as above. If from some
+    point `k0` on the target presents the contract `c` (no further change) and polls do not fail, then from some
+    point on the contract last handed to the watcher is `c` — forever. (The delivery rule of `tstep` is the
+    specification's: a successful poll delivers what it fetched iff it differs from the last delivered contract —
+    `C15_updates` proves the bookkeeping implements exactly that; `C15_aggregate_members_all_interleavings` carries
+    it to both routers.) -/
+theorem C15_persistent_change_eventually_delivered (iv c0 : Nat) (st : Nat → T) (lb : Nat → TL) (hrun : IsRun st lb)
+    (h0 : st 0 = T.init false iv c0) (hfair : FairPoller st lb) (htime : TimeDiverges lb) (hnc : NoClose lb)
+    (k0 c : Nat) (htar : ∀ j, k0 ≤ j → (st j).target = c) (hnf : ∀ j, k0 ≤ j → lb j ≠ .pollFail) :
+    ∃ k1, k0 ≤ k1 ∧ ∀ j, k1 ≤ j → (st j).delivered = some c := by
+  obtain ⟨i1, hi1, hps⟩ := C15_polls_forever_on_fair_runs iv c0 st lb hrun h0 hfair htime hnc k0
+  have hrun1 := hrun i1
+  rw [hps] at hrun1
+  have hf1 : Fetching c (st (i1 + 1)) := by
+    have := pollStart_fetches _ _ hrun1
+    rwa [htar i1 hi1] at this
+  -- the poll ends
+  have hsettle : ∃ k1, k0 ≤ k1 ∧ Settled c (st k1) := by
+    obtain ⟨k2, hk2, hf⟩ := hfair (i1 + 1)
+    obtain ⟨m, rfl⟩ := Nat.le.dest hk2
+    rcases walk_fetching c st lb hrun k0 hnf m (i1 + 1) (by omega) hf1 with ⟨i, hi, hs⟩ | hfm
+    · exact ⟨i + 1, by omega, hs⟩
+    · rcases hf with hpol | hne
+      · rcases fetching_step c _ _ _ (hrun (i1 + 1 + m)) hfm (hnf _ (by omega)) with ⟨hnp, _⟩ | ⟨_, hs⟩
+        · rw [hpol] at hnp; cases hnp
+        · exact ⟨i1 + 1 + m + 1, by omega, hs⟩
+      · exact absurd (fetching_enabled c _ hfm) hne
+  obtain ⟨k1, hk1, hs⟩ := hsettle
+  refine ⟨k1, hk1, fun j hj => ?_⟩
+  obtain ⟨m, rfl⟩ := Nat.le.dest hj
+  exact (settled_forever c st lb hrun k0 htar hnf m k1 hk1 hs).1
+
+/-- Non-vacuity of the timed model: interval 2; the first poll delivers contract 5, the timer is refused before the
+    deadline and taken at it, an unchanged contract is polled silently, a change to 9 is delivered by the next timer
+    poll; a `pollEnd` whose callback flag contradicts the delivery rule is refused. -/
+example :
+    ((GB.LTS.run tstep (T.init false 2 5) [.l .pollStart, .tick, .l (.pollEnd true), .tick, .l .timer]).isNone = true) ∧
+    ((GB.LTS.run tstep (T.init false 2 5)
+        [.l .pollStart, .tick, .l (.pollEnd true), .tick, .tick, .l .timer, .l .pollStart, .l (.pollEnd false),
+         .change 9, .tick, .tick, .l .timer, .l .pollStart, .l (.pollEnd true)]).map
+      (fun t => (t.delivered, t.now, t.deadline, t.w.polls))) = some (some 9, 5, 7, 3) ∧
+    ((GB.LTS.run tstep (T.init false 2 5) [.l .pollStart, .l (.pollEnd false)]).isNone = true) := by decide
